@@ -145,7 +145,9 @@ def _gen_lit(rng):
             return {"k": "lit", "lex": _rand_lex(rng), "dt": None, "lang": rng.choice(BAD_LANGS), "nn": False}
         return {"k": "lit", "lex": _rand_lex(rng), "dt": rng.choice(CUSTOM_DT), "lang": rng.choice(LANGS + [""]), "nn": True}
     if r < 0.52:
-        dt = rng.choice(CUSTOM_DT + [XSD + "string"]) if rng.random() < 0.95 else rng.choice(BAD_DT)
+        p_ = rng.random()
+        # (an empty datatype IRI is accepted by the constructor: a falsy URIRef that is not None)
+        dt = rng.choice(CUSTOM_DT + [XSD + "string"]) if p_ < 0.90 else "" if p_ < 0.95 else rng.choice(BAD_DT)
         return {"k": "lit", "lex": _rand_lex(rng), "dt": dt, "lang": None, "nn": rng.random() < 0.3}
     if r < 0.94:
         name = rng.choice(list(LEX))
@@ -161,11 +163,13 @@ def _gen_retyped(rng):
     name = rng.choice(list(LEX))
     lex = rng.choice(LEX[name] + ["abc", "", "1", "01", "1.5", "true"]) if rng.random() < 0.85 else _rand_lex(rng)
     dt = rng.choice([XSD + name, XSD + name, XSD + rng.choice(["integer", "double", "decimal", "unsignedByte"]),
-                     None, rng.choice(CUSTOM_DT)])
+                     None, rng.choice(CUSTOM_DT), rng.choice(CUSTOM_DT + [""])])
     lang = rng.choice(LANGS) if rng.random() < 0.25 else None
-    if lang and dt and rng.random() < 0.4:
+    if rng.random() < 0.08:     # a datatyped literal whose datatype is falsy (the empty IRI) re-made into a language-tagged one
+        return {"k": "lit", "lex": lex, "dt": "", "lang": rng.choice(LANGS), "nn": False, "re": "lang"}
+    if lang and dt is not None and rng.random() < (0.4 if dt else 0.8):
         return {"k": "lit", "lex": lex, "dt": dt, "lang": lang, "nn": False, "re": "lang"}
-    if dt and rng.random() < 0.35:
+    if dt is not None and rng.random() < 0.35:
         # copy construction Literal(Literal(lex, datatype=dt)): datatype and value are copied, `ill_typed` is not
         return {"k": "lit", "lex": lex, "dt": dt, "lang": None, "nn": False, "re": "copy"}
     return {"k": "lit", "lex": lex, "dt": dt, "lang": lang, "nn": False, "re": True}
@@ -208,7 +212,8 @@ def _gen_route(rng):
     if r < 0.8:
         return {"k": "iri", "s": rng.choice(["a", "../b", "#f", "c?d=1", "", "http://e/abs", "x/y#"]),
                 "base": rng.choice(["http://e/dir/doc", "http://e/", "http://e/a#frag", "urn:x:y"])}
-    return {"k": "bnode", "s": "", "gen": rng.choice(["42", "0", "abc"]), "prefix": rng.choice(["N", "b", ""])}
+    return {"k": "bnode", "s": "", "gen": rng.choice(["42", "0", "abc"]), "prefix": rng.choice(["N", "b", ""]),
+            "genkind": rng.choice(["fn", "fn-generator", "generator"])}
 
 
 def _gen_term(rng, p_route=0.0):
@@ -616,7 +621,12 @@ def build(t):
     if k == "iri" and t.get("base"):
         return URIRef(t["s"], base=t["base"])
     if k == "bnode" and t.get("gen") is not None:
-        return BNode(_sn_gen=lambda: t["gen"], _prefix=t.get("prefix", "N"))
+        gk = t.get("genkind", "fn")
+        if gk == "fn":                       # a callable that returns the id
+            return BNode(_sn_gen=lambda: t["gen"], _prefix=t.get("prefix", "N"))
+        g_ = (x for x in [t["gen"], "unused"])
+        # a callable that returns a generator of ids / a generator of ids itself
+        return BNode(_sn_gen=(lambda: g_) if gk == "fn-generator" else g_, _prefix=t.get("prefix", "N"))
     if k == "lit" and t.get("re") == "lang":   # a datatyped literal re-made into a language-tagged one
         return Literal(Literal(t["lex"], datatype=t.get("dt"), normalize=False), lang=t.get("lang"))
     if k == "lit" and t.get("re") == "copy":   # copy construction of a datatyped literal
@@ -911,6 +921,20 @@ def run_impl(case):
         stats["k_" + k] = stats.get("k_" + k, 0) + 1
         if tj.get("re"):
             stats["lit_retyped"] = stats.get("lit_retyped", 0) + 1
+    ctor_viol = []
+    for tj, t in zip(terms_j, ts):
+        if tj["k"] == "bnode" and tj.get("gen") is not None:
+            # BNode(_sn_gen=…, _prefix=…): the id comes from the callable / generator, behind the prefix
+            if t is None or type(t) is not BNode or str(t) != tj.get("prefix", "N") + tj["gen"]:
+                ctor_viol.append(f"ctor-route: BNode(_sn_gen={tj.get('genkind', 'fn')} giving {tj['gen']!r}, _prefix={tj.get('prefix')!r}) gives {t!r}")
+        if tj["k"] == "lit" and tj.get("re") == "lang" and tj.get("lang") and re.fullmatch(r"[a-zA-Z]+(-[a-zA-Z0-9]+)*", tj["lang"]) \
+                and _scalar(tj["lex"]):
+            # Literal(Literal(lex, datatype=dt), lang=tag): a language-tagged string with that lexical form and no datatype
+            inner = _try(lambda: Literal(tj["lex"], datatype=tj.get("dt"), normalize=False))
+            if isinstance(inner, Exception):
+                continue
+            if t is None or t.language != tj["lang"] or t.datatype is not None or str(t) != str(inner):
+                ctor_viol.append(f"ctor-route: Literal(Literal({tj['lex']!r}, datatype={tj.get('dt')!r}), lang={tj['lang']!r}) gives {t!r}")
     live = [(i, t) for i, t in enumerate(ts) if t is not None]
     kinds = {i: BASEKIND[terms_j[i]["k"]] for i, _ in live}
     nontrivial = False
@@ -928,6 +952,9 @@ def run_impl(case):
         if len(viol) < 12:
             viol.append(f"{tag}: {msg}")
             involved.append(list(idx))
+
+    for m_ in ctor_viol:
+        V("ctor-route", m_.split(": ", 1)[1])
 
     # ---------------- pairs: ==, !=, hash, set/dict collapse, <, >
     for i, a in live:
@@ -1298,8 +1325,8 @@ def _respelt(t):
 
 def _text_in_scope(t):
     """n3 text obligations: datatype IRIs are IRIs (no character of _invalid_uri_chars), only scalar values"""
-    if isinstance(t, Literal) and t.datatype is not None and any(c in str(t.datatype) for c in INVALID):
-        return False
+    if isinstance(t, Literal) and t.datatype is not None and (any(c in str(t.datatype) for c in INVALID) or str(t.datatype) == ""):
+        return False      # the datatype is not an IRI (the empty one is written as no datatype at all)
     return _scalar(str(t)) and (not isinstance(t, Literal) or t.datatype is None or _scalar(str(t.datatype)))
 
 
